@@ -755,3 +755,7 @@ EXPECTED_PROBES = ['math-lists-changed-while-in-math-mode', 'derive-without-effe
                    'derive-repeats-current-values', 'chain-depth-4']
 
 STATES_MEASURE = ('distinct (field values, per-step inheritance pattern of the three cached table groups) pairs, derived from the program, not from private attributes')
+
+# wall-clock guard per forked child (a program normally takes milliseconds to a second); only ever
+# turns a hang into 'timeout', which is confirmed twice before it is reported
+CHILD_WALL_S = 45
